@@ -732,9 +732,26 @@ class ExprMixin:
             d.entries.append((self.to_term(self.eval(k)), self.eval(v), (), ()))
         return d
 
+    def e_Yield(self, node):
+        lst = self.frame.yields
+        if lst is None:
+            self.unknown("yield outside an inlined generator function", node)
+            return ("unk", "yield")
+        val = self.eval(node.value) if node.value is not None else NONE
+        lst.items.append(Item(val, self._rel_loops(lst), self._rel_guards(lst)))
+        return NONE
+
+    def e_YieldFrom(self, node):
+        lst = self.frame.yields
+        if lst is None:
+            self.unknown("yield from outside an inlined generator function", node)
+            return ("unk", "yield")
+        self._extend(lst, self.eval(node.value), node)
+        return NONE
+
     def e_Lambda(self, node):
         return Closure(node, self.frame.module, dict(self.frame.env), self_obj=self.frame.self_obj,
-                       cls=self.frame.cls, qual=f"{self.frame.qual}.<lambda>")
+                       cls=self.frame.cls, qual=f"{self.frame.qual}.<lambda>", outer=tuple(self.frame.closure_envs))
 
     def e_IfExp(self, node):
         c = self.eval(node.test)
